@@ -1,7 +1,7 @@
 (* C07 — property theorems only. Source = C07.Src, regenerated from /repo on this run. *)
 From Coq Require Import Reals ZArith String List Bool Lra Permutation.
 Require Import Py.PyAst Py.PyVal Py.PySem Py.XLemmas.
-Require Import C07.Src C07.Model C07.NumN.
+Require Import C07.Src C07.Model C07.NumN C07.IdxN.
 Import ListNotations.
 Open Scope string_scope.
 Open Scope R_scope.
@@ -98,3 +98,25 @@ Theorem C07_num_data_of_a_sample_of_any_size : forall (ks : list (option Z)) (w 
   = Ok (VInt (fold_right (fun k s => ndK k + s) 0 ks)%Z, w).
 Proof. exact num_data_any_sample. Qed.
 Print Assumptions C07_num_data_of_a_sample_of_any_size.
+
+(* THE SLOPE INDICES FOR A SAMPLE OF ANY SIZE (induction over the constructor's loop, IdxN.v): whatever the number and the order of the lenses
+   (each without a scaling list, with one that lacks gamma_pl, or with one that has it), the constructed sample holds one lens object per
+   lens, in list order; a lens gets a slope index iff it interpolates over its own slope, and then the index is the NUMBER OF SLOPE LENSES
+   BEFORE IT (so the j-th sampled slope belongs to the j-th slope lens); the reported number of slopes is the number of slope lenses. *)
+Theorem C07_slope_indices_for_a_sample_of_any_size : forall (specs : list (kind * string)) (w : world),
+  call Gi 80 (CClass "LensSampleLikelihood" src_LensSampleLikelihood_init) None [VList (map mkL specs)] [] w
+  = Ok (VObj "LensSampleLikelihood" [("_lens_list", VList (outs 0 specs)); ("_gamma_pl_num", VInt (cnt 0 specs))], w)
+  /\ cnt 0 specs = Z.of_nat (length (filter is_slope specs))
+  /\ length (outs 0 specs) = length specs
+  /\ (forall pre kd nm rest, specs = (pre ++ (kd, nm) :: rest)%list ->
+       nth_error (outs 0 specs) (length pre) = Some (lens_out nm (idxv kd (Z.of_nat (length (filter is_slope pre)))))).
+Proof.
+  intros specs w. split; [apply slope_indices_any_sample|]. split; [rewrite cnt_counts; reflexivity|]. split.
+  - generalize 0%Z. induction specs as [|[kd nm] r IH]; intros c; cbn [outs length]; [reflexivity|]. rewrite IH. reflexivity.
+  - intros pre kd nm rest E. rewrite (outs_nth specs 0%Z pre kd nm rest E). reflexivity.
+Qed.
+Print Assumptions C07_slope_indices_for_a_sample_of_any_size.
+Example C07_slope_indices_instance :
+  outs 0 [(Plain, "a"); (Slope, "b"); (NoSlope, "c"); (Slope, "d"); (Slope, "e")]
+  = [lens_out "a" VNone; lens_out "b" (VInt 0); lens_out "c" VNone; lens_out "d" (VInt 1); lens_out "e" (VInt 2)].
+Proof. reflexivity. Qed.
